@@ -105,6 +105,13 @@ def run_country(shard, mon: Mon):
             judge.judge_iban_accept(mon, gen.refix(t), table, "W3")
             if L != n:
                 judge.judge_iban_accept(mon, t, table, "W3")
+        # W3n a whole IBAN where the BBAN should be (pasted twice / prefixed twice), with every way of making the
+        # outer check digits "right"
+        for b in bases[:2]:
+            inner = b
+            for t in (b[:4] + inner, R.make_iban(cc, inner), b[:2] + "00" + inner, b[:4] + b[:2] + "00" + b[4:], R.make_iban(cc, b[:2] + "00" + b[4:]), b + b[4:], b[:4] + b[:4] + b[4:]):
+                judge.judge_iban_accept(mon, t, table, "W3n")
+                judge.judge_iban_accept(mon, t, table, "W3n")
         # W4 all check digit pairs
         for b in bases[: sz["pairs_bbans"]]:
             bban = b[4:]
